@@ -332,6 +332,8 @@ def fuzz_seeds(rng):
         ("Add, AddAssign", "impl<T> std::ops::Add<&X<T>> for &X<T> where Self: Sized { type Output = X<T>; fn add(self, rhs: &X<T>) -> X<T> { todo!() } }"),
         ("Sub", "impl std::ops::SubAssign<u8> for Y { fn sub_assign(&mut self, rhs: u8) {} }"),
         ("Add", "impl Add<dyn Tr +> for X { type Output = X; fn add(self, rhs: dyn Tr +) -> X { self } }"),
+        ("Add, AddAssign", "impl !Add for X {}"),
+        ("Sub", "impl<T> !SubAssign<T> for X<T> {}"),
         ("Mul, MulAssign", "impl Mul<X> for dyn Tr + Send { type Output = X; fn mul(self, rhs: X) -> X { rhs } }"),
         ("Shl", "impl ShlAssign<&(impl Tr +)> for (X) { fn shl_assign(&mut self, rhs: &(impl Tr +)) {} }"),
         ("Debug, Clone", "struct Dy { a: u8, t: dyn ::core::fmt::Debug + Send }"),
